@@ -326,7 +326,14 @@ func (s *server) ModifyColumnFamilies(ctx context.Context, req *btapb.ModifyColu
 	// request is either not applied at all, or it is applied and at most some cells of a dropped family
 	// (invisible, the family is gone) are still to be purged. Persisting after each drop would expose a
 	// definition that holds only part of the request.
-	s.storage.SetTableMeta(tbl.def)
+	// The request found its table before it waited for the table lock: if the table has been deleted (or deleted
+	// and created again) since, persisting this definition would bring the deleted table back at the next start
+	// (or overwrite the definition of its successor). Like CreateTable and DeleteTable, write under the registry lock.
+	s.mu.Lock()
+	if s.tables[req.Name] == tbl {
+		s.storage.SetTableMeta(tbl.def)
+	}
+	s.mu.Unlock()
 
 	if len(dropped) > 0 {
 		// Purge all data of the dropped column families, also of one that the same request created again.
